@@ -46,7 +46,7 @@ fn gamma(a: Decimal) -> Decimal {
         s += Decimal::new(1709705434044412243, 24) / (Decimal::new(7, 0) - a);
         s += Decimal::new(-5719261174043057813, 24) / (Decimal::new(8, 0) - a);
         s += Decimal::new(4633994733599056367, 28) / (Decimal::new(9, 0) - a);
-        s += Decimal::new(-2719949084886077039, 31) / (Decimal::new(10, 0) - a);
+        s += Decimal::new(-2719949084886077, 28) / (Decimal::new(10, 0) - a);
         let compute_sin = (Decimal::new(3141592653589793238, 18) * a).sin(); // 3.14159265358979323846264338327950288419716939937510582
         let compute_pow = ((a - Decimal::new(10400511, 6)) / Decimal::new(2718281828459045235, 18))
             .powd(Decimal::new(5, 1) - a);
@@ -62,7 +62,7 @@ fn gamma(a: Decimal) -> Decimal {
         s += Decimal::new(1709705434044412243, 24) / (a + Decimal::new(6, 0));
         s += Decimal::new(-5719261174043057813, 24) / (a + Decimal::new(7, 0));
         s += Decimal::new(4633994733599056367, 28) / (a + Decimal::new(8, 0));
-        s += Decimal::new(-2719949084886077039, 31) / (a + Decimal::new(9, 0));
+        s += Decimal::new(-2719949084886077, 28) / (a + Decimal::new(9, 0));
         let compute_pow = ((a + Decimal::new(10400511, 6)) / Decimal::new(2718281828459045235, 18))
             .powd(a - Decimal::new(5, 1));
         s * Decimal::new(1860382734205265717, 18) * compute_pow
@@ -133,7 +133,7 @@ pub fn eval(expr: Node) -> Result<Decimal, Box<dyn error::Error>> {
                 return Err("The Lambert W function is not defined for {}.".into());
             }
             let iterations = (Decimal::new(4, 0))
-                .max((sub_expr.log10() / Decimal::new(3, 0)).ceil())
+                .max((sub_expr.checked_log10().unwrap_or(Decimal::ZERO) / Decimal::new(3, 0)).ceil())
                 .to_i32()
                 .unwrap_or(4);
             let mut w = Decimal::ZERO;
